@@ -4,8 +4,9 @@ Named regions of the (annotation, value) space in which the code is known to dev
 
 Tree with the repairs F1-F5 (`fixes/Callable_fix_F1.diff` … `F5.diff`): the regions `callableWithoutName`, `abcConvert`,
 `unionNotExactMember`, `declaredUnionVsClass`, `genericVsRawClass` of the unrepaired tree are gone (positive theorems in
-`Props/Callable.lean`); one region is left, a completeness defect (property C02).  It is a syntactic shape: inside it there
-are conforming values (every coroutine function whose parameters fit) and non-conforming ones.
+`Props/Callable.lean`); the last region, `asyncVsTop` (a completeness defect, property C02: a coroutine function against
+`Callable[.., Any]`), is empty since the repair that made the coroutine branch test for a top type (`retRegions` depends on the
+generated fact `coroOtherTopTest`; `Props/Callable.lean`: `guard_always`, `callable_complete_full_holds`).
 -/
 namespace PedVerif.Callable.Spec
 open PedVerif.Callable
@@ -17,8 +18,10 @@ deriving DecidableEq, Repr
 def Region.name : Region → String
   | .asyncVsTop => "asyncVsTop"
 
+/-- the region exists only in a tree whose `_instancecheck_callable` answers a constant for a coroutine function against an expected
+    return type other than Awaitable / Coroutine; with the top-type test (generated fact `coroOtherTopTest`) it is empty -/
 def retRegions (env : Env) (coro : Bool) (eret : TA) : List Region :=
-  if coro && isTop env eret then [.asyncVsTop] else []
+  if coro && isTop env eret && !PedVerif.Gen.Callable.coroOtherTopTest then [.asyncVsTop] else []
 
 def leafRegions (env : Env) (v : CVal) (e : Exp) : List Region :=
   match v with
